@@ -20,18 +20,18 @@ INVARIANTS = ["CheckAndPrint", "KeyMachineLaw"]
 
 
 def shapes_for(tier, rng):
-    """(n_in, n_out, d) with n d <= 6 (quick) / <= 8 and a few 2^9..2^12-probe cases (thorough); rectangular first"""
-    lim = 6 if tier == "quick" else 8
-    combos = [(ni, no, d) for d in (1, 2, 3) for ni in range(1, 5) for no in range(1, 5) if ni * d <= lim and no * d <= lim]
-    rect = [c for c in combos if c[0] != c[1]]
-    square = [c for c in combos if c[0] == c[1]]
+    """(n_in, n_out, d), n <= 4, d <= 4 (the property's quantifier); bits = max(n_in, n_out) d = log2 of the enumeration"""
+    combos = [(ni, no, d) for d in (1, 2, 3, 4) for ni in range(1, 5) for no in range(1, 5)]
+    bits = lambda c: max(c[0], c[1]) * c[2]  # noqa: E731
+    small = [c for c in combos if bits(c) <= 8]  # 40 shapes, 24 of them rectangular, <= 256 probes
+    small = [c for c in small if c[0] != c[1]] + [c for c in small if c[0] == c[1]]
     if tier == "quick":
-        return rect + square
+        return small + [(4, 2, 3), (2, 3, 4)]  # two 4096-probe cases
     out = []
-    for _ in range(6):
-        out += rect + square
-    # the corners of the property's quantifier (n <= 4, d <= 3): 512 / 4096 enumerated probes on one side
-    out += [(3, 1, 3), (1, 3, 3), (3, 2, 3), (2, 3, 3), (3, 3, 3), (4, 1, 3), (1, 4, 3), (4, 2, 3), (2, 4, 3), (4, 3, 3), (3, 4, 3), (4, 4, 3)]
+    for _ in range(7):
+        out += small
+    # every remaining shape of the quantifier once: 2^9 .. 2^12 probes, and the seven 2^16-probe shapes (n = d = 4)
+    out += [c for c in combos if bits(c) > 8]
     return out
 
 
@@ -43,7 +43,9 @@ def _evaluate(insts, hutch, batch):
 def _replay_job(job):
     from harness import hutch
 
-    return hutch.check_instance(*job)
+    stats = {}
+    bad = hutch.check_instance(*job, stats=stats)
+    return bad, stats
 
 
 def _replay_all(jobs):
@@ -81,10 +83,10 @@ def run(tier: str, seed: int) -> int:
     insts = [hutch.instance(rng, ni, no, d, n_calls=3 if tier == "quick" else 4, n_shapes=3 if tier == "quick" else 4) for (ni, no, d) in shp]
     # big enumerations last and in batches of their own (TLC time is dominated by them)
     small = [j for j, s in enumerate(shp) if max(s[0], s[1]) * s[2] <= 8]
-    big = [j for j, s in enumerate(shp) if max(s[0], s[1]) * s[2] > 8]
+    big = sorted((j for j, s in enumerate(shp) if max(s[0], s[1]) * s[2] > 8), key=lambda j: -max(shp[j][0], shp[j][1]) * shp[j][2])
     res = {}
     ndrop = 0
-    for idxs, batch in ((small, 6 if tier == "quick" else 12), (big, 1)):
+    for idxs, batch in ((big, 1), (small, 5 if tier == "quick" else 12)):
         if not idxs:
             continue
         r, dropped, st, gen, fail = _evaluate([insts[j] for j in idxs], hutch, batch)
@@ -106,8 +108,11 @@ def run(tier: str, seed: int) -> int:
     # replay into the implementation: op-by-op XLA compilation dominates (every instance has new shapes), so
     # the instances are spread over worker processes
     bads = _replay_all([(insts[j], res[j]) for j in todo])
-    for j, bad in zip(todo, bads):
+    totals = {}
+    for j, (bad, stats) in zip(todo, bads):
         inst = insts[j]
+        for k, v in stats.items():
+            totals[k] = totals.get(k, 0) + v
         rep.traces += 1
         nontrivial = inst["nin"] != inst["nout"] or inst["d"] >= 2
         n_rect += inst["nin"] != inst["nout"]
@@ -124,10 +129,11 @@ def run(tier: str, seed: int) -> int:
     rep.extra["rectangular_instances"] = int(n_rect)
     rep.extra["max_enumerated_probes"] = max(2 ** (max(s[0], s[1]) * s[2]) for s in shp)
     rep.extra["handlers_x_entry_points"] = 9
+    rep.extra["implementation_calls"] = totals
     rep.assumptions = [
         "maps are integer polynomials of degree <= 3 evaluated at integer points (a Jacobian handler sees a map only through its value and derivative at the point); values and estimates are integers / dyadic in float64, compared at 1e-12",
         "distinct split paths give distinct keys (checked bitwise on the replayed call sequences, assumed for jax.random in general)",
-        "quick: n d <= 6 (64 probes); thorough: n d <= 8 plus the corners up to n = 4, d = 3 (4096 probes); the quantifier's d = 4 is not enumerated",
+        "quick: every shape with max(n_in, n_out) d <= 8 once plus two 4096-probe shapes; thorough: those seven times with fresh coefficients and every other shape of n_in, n_out, d <= 4 once (up to 2^16 enumerated probes)",
         "any exception counts as a rejection of a malformed input; accepted inputs must return",
     ]
     return rep.finish()
